@@ -90,18 +90,18 @@ func suiteC13Bind(cfg Config, res *Result) {
 		// defined in another file but called with the importer's context, where
 		// the same names are bound (the context is shared), so the reference agrees
 		cases = append(cases, pc)
-		wants[pc.Req()] = want
+		wants[pc.Key()] = want
 		if i%12 == 0 {
 			// a macro call that fails after having written something: what it wrote is gone with it
 			// and must not turn up in a later call (of this or any other template)
 			bad := ProgCase{Src: fmt.Sprintf("{%% macro bad(x) %%}LEFTOVER%d{{ 1/x }}{%% endmacro %%}{%% macro deep(n) %%}D{{ deep(n) }}{%% endmacro %%}{{ %s }}", i, rng.Pick([]string{"bad(0)", "deep(1)"})), Ctx: &ct, Label: "full/poison"}
 			cases = append(cases, bad)
-			wants[bad.Req()] = "err exec"
+			wants[bad.Key()] = "err exec"
 		}
 	}
 	runProgCases(cfg, res, cases, "c13", func(c ProgCase, o ImplOutcome) bool { return strings.HasPrefix(c.Label, "omitted") },
 		func(c ProgCase, o ImplOutcome) *Finding {
-			want := wants[c.Req()]
+			want := wants[c.Key()]
 			if o.Canon() != want {
 				return &Finding{Kind: "oracle", Proj: "binding", Sig: "c13-binding", Case: c.String(), Impl: o.Canon() + " " + o.Msg, Model: "reference binding: " + want}
 			}
